@@ -8,8 +8,9 @@
    Streams are read from the file named on the command line:  one line per function
        F <i> <n> v1 ... vn        (signed 64-bit decimals)
    After LIMIT events the run of the function is cut (longjmp) and `LIMIT` is printed; a run
-   that spins without events (`L: goto L;`) is cut by a timer and `SPIN` is printed; so every
-   run terminates.  */
+   that spins without events (`L: goto L;`) is cut by a CPU-time timer and `SPIN` is printed; so
+   every run terminates.  Events are appended to a memory buffer without stdio (the timer's
+   siglongjmp may interrupt an append: a line counts only once `committed` has moved past it). */
 #include <stdio.h>
 #include <stdlib.h>
 #include <setjmp.h>
@@ -35,10 +36,28 @@ static sigjmp_buf jb;
 static void tick(void) { if (++events > limit) siglongjmp(jb, 1); }
 static long next(void) { long v = oi < ncur ? cur[oi] : 0; oi++; return v; }
 
-void m(int k) { tick(); printf("m %d\n", k); }
-int c(int k) { tick(); printf("c %d\n", k); return (int)next(); }
-long in(int k) { tick(); printf("in %d\n", k); return next(); }
-void r(long v) { tick(); printf("r %ld\n", v); }
+static char buf[1 << 20];
+static volatile unsigned long committed;
+
+static void put(const char *tag, long v) {
+  unsigned long at = committed;
+  char tmp[24];
+  int n = 0;
+  unsigned long u = v < 0 ? 0UL - (unsigned long)v : (unsigned long)v;
+  do { tmp[n++] = '0' + u % 10; u /= 10; } while (u);
+  if (at + 32 > sizeof buf) return;
+  while (*tag) buf[at++] = *tag++;
+  buf[at++] = ' ';
+  if (v < 0) buf[at++] = '-';
+  while (n) buf[at++] = tmp[--n];
+  buf[at++] = '\n';
+  committed = at;
+}
+
+void m(int k) { tick(); put("m", k); }
+int c(int k) { tick(); put("c", k); return (int)next(); }
+long in(int k) { tick(); put("in", k); return next(); }
+void r(long v) { tick(); put("r", v); }
 
 static void on_alarm(int sig) { (void)sig; siglongjmp(jb, 2); }
 
@@ -59,18 +78,19 @@ int main(int argc, char **argv) {
     if (!fns[i]) continue;
     printf("== %d\n", i);
     cur = vals[i]; ncur = nvals[i]; oi = 0; events = 0;
-    struct itimerval tv = { {0, 0}, {0, 250000} }, off = { {0, 0}, {0, 0} };
+    struct itimerval tv = { {0, 0}, {0, 150000} }, off = { {0, 0}, {0, 0} };
+    committed = 0;
     int how = sigsetjmp(jb, 1);
     if (how == 0) {
-      signal(SIGALRM, on_alarm);
-      setitimer(ITIMER_REAL, &tv, 0);
+      signal(SIGVTALRM, on_alarm);
+      setitimer(ITIMER_VIRTUAL, &tv, 0);
       fns[i]();
-      setitimer(ITIMER_REAL, &off, 0);
-      printf("END\n");
+      setitimer(ITIMER_VIRTUAL, &off, 0);
     } else {
-      setitimer(ITIMER_REAL, &off, 0);
-      printf(how == 1 ? "LIMIT\n" : "SPIN\n");
+      setitimer(ITIMER_VIRTUAL, &off, 0);
     }
+    fwrite(buf, 1, committed, stdout);
+    printf(how == 0 ? "END\n" : how == 1 ? "LIMIT\n" : "SPIN\n");
     fflush(stdout);
   }
   return 0;
